@@ -424,6 +424,44 @@ func init() {
 		e.unsupported("strings.LastIndex on symbolic-length string")
 		return nil
 	}
+	// strings.Index / strings.Cut on character-level strings with a one-character separator
+	firstIndex := func(e *Exec, s, sub StrV) int {
+		if cs, ok := s.Const(); ok {
+			if cu, ok := sub.Const(); ok {
+				return strings.Index(cs, cu)
+			}
+		}
+		if s.IsCh && sub.IsCh && len(sub.Chars) == 1 {
+			for i := 0; i < len(s.Chars); i++ {
+				if e.decide(e.tf.Eq(s.Chars[i], sub.Chars[0])) {
+					return i
+				}
+			}
+			return -1
+		}
+		e.unsupported("strings.Index/Cut on a symbolic-length string")
+		return -1
+	}
+	stubs["strings.Index"] = func(e *Exec, fr *Frame, fn *ssa.Function, a []Value) Value {
+		return e.tf.Int(int64(firstIndex(e, e.resolveStr(a[0].(StrV)), a[1].(StrV))))
+	}
+	stubs["strings.Cut"] = func(e *Exec, fr *Frame, fn *ssa.Function, a []Value) Value {
+		s := e.resolveStr(a[0].(StrV))
+		sep := a[1].(StrV)
+		i := firstIndex(e, s, sep)
+		if i < 0 {
+			return TupleV{s, chStr(e.tf, ""), e.tf.Bool(false)}
+		}
+		if !s.IsCh {
+			cs, _ := s.Const()
+			s = chStr(e.tf, cs)
+		}
+		n := 1
+		if c, ok := sep.Const(); ok {
+			n = len(c)
+		}
+		return TupleV{StrV{Chars: s.Chars[:i], IsCh: true}, StrV{Chars: s.Chars[i+n:], IsCh: true}, e.tf.Bool(true)}
+	}
 	stubs["unicode.IsSpace"] = func(e *Exec, fr *Frame, fn *ssa.Function, a []Value) Value {
 		c := a[0].(*Term)
 		if c.Op == "int" {
@@ -508,5 +546,40 @@ func init() {
 		e.flattenLeaves(iv.V, &leaves, 0)
 		name := "json_" + sanitize(typeKey(iv.T)) + "_" + itoa(len(leaves))
 		return TupleV{BytesV{S: StrV{T: e.tf.UF(name, SStr, leaves...)}}, IfaceV{}}
+	}
+}
+
+// sync.Map as an engine map hung off the receiver object (so package-level
+// caches introduced by a change are visible to the history / footprint checks).
+func (e *Exec) syncMapOf(p Ptr) *MapObj {
+	key := fmt.Sprintf("syncmap:%d%v", p.Obj.ID, p.Path)
+	if m, ok := e.pathAux[key].(*MapObj); ok {
+		return m
+	}
+	e.nextObj++
+	m := &MapObj{ID: e.nextObj, Epoch: p.Obj.Epoch, Name: "sync.Map " + p.Obj.Name}
+	e.pathAux[key] = m
+	return m
+}
+
+func init() {
+	stubs["(*sync.Map).Load"] = func(e *Exec, fr *Frame, fn *ssa.Function, a []Value) Value {
+		v, ok := e.mapGet(e.syncMapOf(a[0].(Ptr)), a[1])
+		if !ok {
+			return TupleV{IfaceV{}, e.tf.Bool(false)}
+		}
+		return TupleV{v, e.tf.Bool(true)}
+	}
+	stubs["(*sync.Map).Store"] = func(e *Exec, fr *Frame, fn *ssa.Function, a []Value) Value {
+		e.mapSet(e.syncMapOf(a[0].(Ptr)), a[1], a[2])
+		return nil
+	}
+	stubs["(*sync.Map).LoadOrStore"] = func(e *Exec, fr *Frame, fn *ssa.Function, a []Value) Value {
+		m := e.syncMapOf(a[0].(Ptr))
+		if v, ok := e.mapGet(m, a[1]); ok {
+			return TupleV{v, e.tf.Bool(true)}
+		}
+		e.mapSet(m, a[1], a[2])
+		return TupleV{a[2], e.tf.Bool(false)}
 	}
 }
